@@ -172,9 +172,10 @@ def component(draw, kind, uid):
             params.append(("LANGUAGE", [draw(st.sampled_from(["en", "nl", "en-GB"]))]))
         props.append(("SUMMARY", params, draw(text_value())))
     if draw(st.integers(0, 2)) == 0:
-        props.append(("DESCRIPTION", [], draw(text_value(max_size=60))))
+        # a property may be present with an empty value (clients write 'DESCRIPTION:' for a cleared field)
+        props.append(("DESCRIPTION", [], draw(text_value(max_size=60)) if draw(st.integers(0, 7)) else ""))
     if draw(st.integers(0, 3)) == 0:
-        props.append(("LOCATION", [], draw(text_value(max_size=12))))
+        props.append(("LOCATION", [], draw(text_value(max_size=12)) if draw(st.integers(0, 5)) else ""))
     if draw(st.integers(0, 3)) == 0:
         cats = draw(st.lists(st.sampled_from(["work", "home", "a\\,b", "Zoë", "x y"]), min_size=1, max_size=3))
         props.append(("CATEGORIES", [], ",".join(cats)))
